@@ -129,6 +129,17 @@ pub fn hostile_keys() -> Vec<String> {
     .map(|s| s.to_string())
     .collect();
     v.push("k".repeat(300));
+    // short names dense in characters whose Normalized Path escape is six times as long
+    v.push("\u{1}".repeat(11));
+    v.push("\u{1}\u{b}\u{1f}\u{0}\u{e}\u{2}\u{3}\u{4}\u{5}".to_string());
+    v.push("\u{1f}".repeat(24));
+    // names that look like escapes: a literal backslash followed by escape letters / hex digits
+    for s in ["caf\\u00e9", "C:\\users\\u0041dmin", "a\\nb", "\\t", "\\'", "\\\"", "\\/", "\\u12", "\\uZZZZ", "\\ud83d\\ude00", "\\u0000", "\\\\u0041", "x\\u0041\\", "\\b\\f\\r"] {
+        v.push(s.to_string());
+    }
+    // long names: an escapable character after multi-byte ones, beyond 32 / 64 bytes
+    v.push(format!("\u{e9}{} it's here", "x".repeat(36)));
+    v.push(format!("{}\u{1f600}\\tail'\u{1}", "y".repeat(70)));
     v
 }
 
@@ -261,6 +272,8 @@ pub fn notable_chars() -> Vec<char> {
     vec![
         '\u{20}', '\u{21}', '\u{7e}', '\u{7f}', '\u{80}', '\u{85}', '\u{9f}', '\u{a0}', '\u{ad}', '\u{200b}', '\u{2028}', '\u{2029}', '\u{2060}', '\u{3000}', '\u{d7ff}', '\u{e000}', '\u{feff}', '\u{fffd}', '\u{fffe}', '\u{ffff}', '\u{10000}',
         '\u{1f600}', '\u{10fffe}', '\u{10ffff}', '\u{0}', '\u{1f}',
+        // characters whose low byte is a blank or a syntax character (truncating casts)
+        '\u{10d}', '\u{420}', '\u{4e0a}', '\u{4e09}', '\u{120}', '\u{12e}', '\u{15b}', '\u{127}', '\u{124}', '\u{140}', '\u{12a}', '\u{122}', '\u{15c}', '\u{10020}',
     ]
 }
 
@@ -325,6 +338,54 @@ pub fn composition_queries() -> Vec<String> {
     for c in contexts {
         for f in formulas {
             v.push(c.replace('F', f));
+        }
+    }
+    v
+}
+
+/// text that looks like query syntax (of this or of older / other dialects) inside quoted names
+/// and string literals, where it is just text - in every place a string can stand
+pub fn syntax_inside_strings() -> Vec<String> {
+    let frags = [
+        ".length()", ".size()", ".*~", "..", "[?(@.a)]", "[?(", "@.", "$.", "$", "@", "&&", "||", "==", "!=", "=~", "<=", " in [1]", "length(", "count(@.*)", "match(", "true", "null", "[*]", "[0]", "[1:2]", ",", ", ", "a,b", "last, first", ":", ")", "(", "]", "[", "?", "!", "<", ">", "//",
+        "/*", "#", "--", ";", "{}", "{a}", "*", "..*", "['a']", "[\\\"a\\\"]", "$['a']", "a.b.c", "a b", " a", "a ", "1", "-1", "1e2", "01", "%20", "~", "^", "\\\\", "\\/",
+    ];
+    let templates = [
+        "$['{}']", "$[\"{}\"]", "$[?@.a == '{}']", "$[?@.a != \"{}\"]", "$[?match(@.a, '{}')]", "$[?search(@.a, \"{}\")]", "$[?length(@['{}']) > 1]", "$[?match(@['{}'], 'x.z')]", "$[?search(@.p['{}'], @['{}'])]", "$[?@['{}'] == 1]", "$[?$['{}'][0] == @[\"{}\"]]", "$..['{}']",
+        "$['a', '{}']", "$['{}', \"{}\"].b", "$[?count(@['{}']) == 1]", "$[?value(@..['{}']) == '{}']", "$[?length('{}') == 9]", "$[?@[?@['{}']]]", "$.a['{}'].b[?@ == '{}']",
+    ];
+    let mut v = vec![];
+    for t in templates {
+        for f in frags {
+            // a fragment with a quote of the template's own kind would end the string: the
+            // fragments above contain only escaped double quotes, which both kinds accept
+            if t.contains("'{}'") && f.contains('\'') {
+                continue;
+            }
+            v.push(t.replace("{}", f));
+        }
+    }
+    v
+}
+
+/// two faults in one query that could cancel each other: a function call with one argument too
+/// many (or too few, or of the wrong type) whose surplus / other argument is itself invalid in a
+/// way that only a check behind the grammar catches - and the same fragments in other places
+/// where a later check might never look (second operand of &&, second selector of a union,
+/// the right-hand side of a comparison)
+pub fn double_fault_strings() -> Vec<String> {
+    let frags = [
+        "@. b", "@.. b", "$. c", "@[9007199254740992]", "@[1:9007199254740992]", "@[::-9007199254740992]", "length(@.*)", "count(1)", "length (@.a)", "value(@.a, 1)", "match(@.a)", "@.a ==", "@['a\tb']", "@[01]", "@[-0]", "'\\x'", "1.", "01", "@.a.", "length(@.a,)",
+        "count(@.a) ", "@[?@. b]", "value(@[?length(@.*)])", "@[1.0]", "$[?@ == 1.]",
+    ];
+    let templates = [
+        "$[?length(@.a, {}) == 1]", "$[?length({}, @.a) == 1]", "$[?count(@.*, {}) == 1]", "$[?value(@.a, {}) == 1]", "$[?match(@.a, 'x', {})]", "$[?search({}, @.a, 'x')]", "$[?match({}, @.a, 'x')]", "$[?match(@.a, {}, 'x')]", "$[?length({}) == 1]", "$[?count({}) == 1]",
+        "$[?@.a && {}]", "$[?@.a || !{}]", "$[?@.a == 1 && {} == 2]", "$[0, ?{}]", "$[?@.a, ?{}]", "$[?@.a == {}]", "$[?{} < @.a]", "$[?match(@.a, 'x') && search({}, 'y')]", "$[?length(value({})) == 1]", "$[?count(@[?{}]) > 0]",
+    ];
+    let mut v = vec![];
+    for t in templates {
+        for f in frags {
+            v.push(t.replace("{}", f));
         }
     }
     v
